@@ -4,6 +4,7 @@ import (
 	"bytes"
 	"crypto/sha256"
 	"encoding/hex"
+	"errors"
 
 	"github.com/btcsuite/btcd/btcutil"
 	"github.com/btcsuite/btcd/btcutil/psbt"
@@ -161,7 +162,7 @@ func (b *BitcoinOnChain) GetVoutAndVerify(txHex string, params *swap.OpeningPara
 		}
 	}
 	if scriptOut == nil {
-		return false, 0, err
+		return false, 0, errors.New("no output with the swap amount")
 	}
 
 	wantScript, err := b.GetOutputScript(params)
@@ -170,7 +171,7 @@ func (b *BitcoinOnChain) GetVoutAndVerify(txHex string, params *swap.OpeningPara
 	}
 
 	if bytes.Compare(wantScript, scriptOut.PkScript) != 0 {
-		return false, 0, err
+		return false, 0, errors.New("output with the swap amount does not carry the swap script")
 	}
 
 	return true, vout, nil
